@@ -153,6 +153,17 @@ def run_step(step, comps):
                     rd, wr = dialect_obj(read), dialect_obj(write)
                     return ["ok", [wr.generate(e, copy=False) if e else "" for e in rd.parse(sql)]]
                 return ["ok", sqlglot.transpile(sql, read=read, write=write, **_gen_opts(step.get("opts")))]
+            if op == "subclass_dialect":
+                # a user-defined dialect deriving from a built-in one (a documented extension point), whose generator
+                # supports fewer JSON path parts and defines no TRANSFORMS of its own
+                from sqlglot import exp as _exp
+
+                parent = type(Dialect.get_or_raise(step["parent"]))
+                gen = type("Generator", (parent.generator_class,), {"SUPPORTED_JSON_PATH_PARTS": {_exp.JSONPathKey, _exp.JSONPathRoot}})
+                name = "Sub%s%d" % (parent.__name__, len(comps.objs))
+                sub = type(name, (parent,), {"Generator": gen})
+                comps.objs[("subdialect", name)] = sub
+                return ["ok", [parent.__name__, "subclass defined"]]  # the class name depends on the history; the answer must not
             if op == "qualify_raw":
                 from sqlglot.optimizer.qualify import qualify
 
